@@ -145,3 +145,40 @@ pub fn all_positions() -> Vec<(u8, u8)> {
     v.push((48, 49));
     v
 }
+
+// ---------------------------------------------------------------------------------------------
+// interrupted formatting (call histories of Display)
+
+/// A `fmt::Write` sink that fails once more than `left` bytes have been offered.
+pub struct ShortSink {
+    pub left: usize,
+}
+impl std::fmt::Write for ShortSink {
+    fn write_str(&mut self, s: &str) -> std::fmt::Result {
+        if s.len() > self.left {
+            self.left = 0;
+            Err(std::fmt::Error)
+        } else {
+            self.left -= s.len();
+            Ok(())
+        }
+    }
+}
+
+/// Formats `x` into a sink of `cap` bytes and gives back whether the write failed.  Used as a
+/// step of call histories: a formatting call that was cut short (a fixed-size buffer, a closed
+/// pipe) must not influence what the next formatting call on the thread prints.
+pub fn format_cut_short<T: std::fmt::Display>(x: &T, cap: usize) -> bool {
+    use std::fmt::Write;
+    write!(ShortSink { left: cap }, "{}", x).is_err()
+}
+
+/// A small range unlike anything the generators build (weight 0.8125 on a pocket pair, a suited
+/// run and two single combos), formatted into short sinks by the histories of C06 and C17.
+pub fn odd_range() -> espada::hand_range::HandRange {
+    let mut v: Vec<(CardPair, f32)> = vec![];
+    for (a, b) in [(0u8, 1u8), (0, 2), (0, 3), (1, 2), (1, 3), (2, 3), (4, 8), (5, 9), (6, 10), (7, 11), (8, 12), (9, 13), (10, 14), (11, 15), (20, 50), (21, 51)] {
+        v.push((e_pair(a, b), 0.8125));
+    }
+    v.into_iter().collect()
+}
